@@ -193,6 +193,31 @@ Definition dropped_any (s : st) : bool :=
         && match s_zdrop s with [] => true | _ => false end
         && match s_skip s with [] => true | _ => false end).
 
+(* ---- repairs of the njmax_nnz class in make_constraint (all absent = the original code) ----
+   f_prezero: efc_J_rownnz / efc_J_rowadr are zeroed before the builders run;
+   f_flag   : after the builders, NJMAX_NNZ is ORed into the overflow word when the nnz counter
+              exceeds njmax_nnz (a second, direct source of the bit; _next_time's probe stays);
+   f_clamp  : the same kernel sets rownnz := 0 for every row below min(nefc, njmax) whose
+              rowadr + rownnz exceeds njmax_nnz (only when the counter overflowed). *)
+Record nnzfix := mkFix { f_flag : bool; f_prezero : bool; f_clamp : bool }.
+Definition nofix : nnzfix := mkFix false false false.
+Definition prezero (fx : nnzfix) (l : list Z) : list Z := if f_prezero fx then map (fun _ => 0) l else l.
+Definition clamp_rnz (cap capz n : Z) (adr rnz : list Z) : list Z :=
+  map (fun i => if (i <? Z.min n cap) && (get adr i + get rnz i >? capz) then 0 else get rnz i)
+      (zrange (Z.of_nat (List.length rnz))).
+Definition set_rnz (s : st) (l : list Z) : st :=
+  mkS (s_n s) (s_ne s) (s_nf s) (s_nl s) (s_z s) (s_adr s) l (s_rows s) (s_slots s) (s_midx s)
+      (s_rdrop s) (s_zdrop s) (s_skip s).
+Definition finish (fx : nnzfix) (cap capz : Z) (sparse : bool) (s : st) : st :=
+  if f_clamp fx && sparse && (s_z s >? capz)
+  then set_rnz s (clamp_rnz cap capz (s_n s) (s_adr s) (s_rnz s)) else s.
+Definition nnz_flag_bit (fx : nnzfix) (capz : Z) (sparse : bool) (s : st) : bool :=
+  f_flag fx && sparse && (s_z s >? capz).
+Definition ov_nnz_fx (fx : nnzfix) (cap capz : Z) (sparse : bool) (s : st) : bool :=
+  nnz_flag_bit fx capz sparse s || ov_nnz cap capz sparse (finish fx cap capz sparse s).
+(* the clamp may hide what the probe reads, so it must come with the flag *)
+Definition fx_ok (fx : nnzfix) : bool := negb (f_clamp fx) || f_flag fx.
+
 (* ---- well-formedness of a skeleton ---- *)
 (* the row guard drops iff the block does not fit: old + rows > cap *)
 Definition wf_fit (b : builder) : bool :=
@@ -210,6 +235,13 @@ Definition wf_nnz (b : builder) : bool :=
 Definition wf_builder (sparse : bool) (b : builder) : bool :=
   wf_fit b && (negb sparse || wf_nnz b).
 Definition wf_builders (sparse : bool) (bs : list builder) : bool := forallb (wf_builder sparse) bs.
+(* with the direct flag the stored metadata no longer matter: an exact nnz guard is enough *)
+Definition nnz_exact (b : builder) : bool :=
+  b_has_nnz b && match b_ncmp b with CGt => b_noff b =? 0 | CGe => b_noff b =? 1 end.
+Definition wf_builder_fx (fx : nnzfix) (sparse : bool) (b : builder) : bool :=
+  wf_fit b && (negb sparse || wf_nnz b || (f_flag fx && nnz_exact b)).
+Definition wf_builders_fx (fx : nnzfix) (sparse : bool) (bs : list builder) : bool :=
+  forallb (wf_builder_fx fx sparse) bs.
 
 (* weaker: the guards are at least as strict as "does not fit" (enough for in-bounds) *)
 Definition safe_builder (b : builder) : bool :=
@@ -249,17 +281,17 @@ Definition run_collision (zskip : bool) (cap : Z) (ts : list task) : st :=
   else run_tasks cap 0 false ts (init_st [] []).
 
 (* requests are given in the order in which the schedule executes them *)
-Definition run_builders (zskip : bool) (c : caps) (sparse : bool) (adr0 rnz0 : list Z) (ov0 : Z) (rq : requests) : result :=
-  let se := run_tasks (njmax c) (njmax_nnz c) sparse (r_efc rq) (init_st adr0 rnz0) in
+Definition run_builders (fx : nnzfix) (zskip : bool) (c : caps) (sparse : bool) (adr0 rnz0 : list Z) (ov0 : Z) (rq : requests) : result :=
+  let se := run_tasks (njmax c) (njmax_nnz c) sparse (r_efc rq) (init_st (prezero fx adr0) (prezero fx rnz0)) in
   let sb := run_collision zskip (naconmax c) (r_bp rq) in
   let sn := run_collision zskip (naconmax c) (r_np rq) in
   let sd := run_tasks (nvmax c) 0 false (r_dof rq) (init_st [] []) in
   let o1 := ov_nefc (njmax c) se in
-  let o2 := ov_nnz (njmax c) (njmax_nnz c) sparse se in
+  let o2 := ov_nnz_fx fx (njmax c) (njmax_nnz c) sparse se in
   let o3 := ov_nefc (naconmax c) sb in
   let o4 := ov_nefc (naconmax c) sn in
   let o5 := ov_nefc (nvmax c) sd in
-  mkR se sb sn sd o1 o2 o3 o4 o5
+  mkR (finish fx (njmax c) (njmax_nnz c) sparse se) sb sn sd o1 o2 o3 o4 o5
       (Z.lor ov0 (bitz o1 1 + bitz o2 2 + bitz o3 4 + bitz o4 8 + bitz o5 128)).
 
 Definition dropped (r : result) : bool :=
@@ -293,6 +325,14 @@ Definition efc_view (cap capz : Z) (sparse : bool) (sentinel : Z) (s : st) : lis
   [s_n s; s_ne s; s_nf s; s_nl s; b2z (ov_nefc cap s); b2z (ov_nnz cap capz sparse s)]
   ++ row_types cap sentinel s ++ row_ids cap sentinel s
   ++ (if sparse then s_adr s ++ s_rnz s else []).
+(* what one world of make_constraint + _next_time leaves, for the repairs [fx] *)
+Definition efc_run (fx : nnzfix) (cap capz : Z) (sparse : bool) (ts : list task) (adr0 rnz0 : list Z) : st :=
+  run_tasks cap capz sparse ts (init_st (prezero fx adr0) (prezero fx rnz0)).
+Definition efc_view_fx (fx : nnzfix) (cap capz : Z) (sparse : bool) (sentinel : Z) (s : st) : list Z :=
+  let s' := finish fx cap capz sparse s in
+  [s_n s; s_ne s; s_nf s; s_nl s; b2z (ov_nefc cap s); b2z (ov_nnz_fx fx cap capz sparse s)]
+  ++ row_types cap sentinel s' ++ row_ids cap sentinel s'
+  ++ (if sparse then s_adr s' ++ s_rnz s' else []).
 Definition slot_view (cap : Z) (s : st) : list Z :=
   [s_n s; b2z (ov_nefc cap s); Z.of_nat (List.length (s_rows s))] ++ map w_efcid (s_rows s).
 
